@@ -14,7 +14,22 @@ import (
 	"bifrostverify/props"
 )
 
+// pinEnv makes every child `go` invocation (go list via go/packages, go build for the bounds-check listing) use the
+// toolchain the analysis was calibrated with, independent of the caller's shell.
+func pinEnv() {
+	const tc = "/opt/veriftools/go1.26.8/bin"
+	if _, err := os.Stat(tc + "/go"); err == nil {
+		os.Setenv("PATH", tc+":"+os.Getenv("PATH"))
+		os.Setenv("GOTOOLCHAIN", "local")
+	}
+	os.Setenv("GOFLAGS", "-mod=mod")
+	os.Setenv("GOPROXY", "off")
+	os.Setenv("GOSUMDB", "off")
+	os.Unsetenv("GOWORK")
+}
+
 func main() {
+	pinEnv()
 	prop := flag.String("prop", "", "property id (C01..C40)")
 	tier := flag.String("tier", "quick", "quick|thorough")
 	repo := flag.String("repo", "/repo", "repository root")
